@@ -211,8 +211,21 @@ def check(run: Run, tier: str, seed: int):
                      "operands": len(scen["specs"]), "flags": f"{fold},{optimize}", "semiring": semiring})
             run_concat(run, scen, srng)
             continue
-        for _ in range(2):
+        if i % 6 == 1:
+            # same-kind continuous inputs observed with a Python int and a non-integer float in one evidence,
+            # folded: the observation tensors of one fold group are stacked
+            spec = gen.gen_spec(srng, leaf_kinds=[srng.choice(["gauss", "poly"])], weight_pz=["id"], units=[srng.choice([1, 2])],
+                                nv=srng.choice([2, 3]), signed=True)
+            feats = gen.spec_features(spec)
+            cls, semiring, fold = "continuous_pair", "sum-product", True
+        for rep in range(2):
             obs = random_obs(srng, spec)
+            if cls == "continuous_pair":
+                vs_ = sorted(spec["vars"], reverse=bool(rep))
+                obs = {str(v): (srng.choice([-2, -1, 1, 2]) if j == 0 else srng.choice([-7, -5, -3, -1, 1, 3, 5, 7]) / 4)
+                       for j, v in enumerate(vs_)}
+                if len(vs_) > 2 and srng.random() < 0.5:
+                    obs.pop(str(vs_[-1]))
             scen = {"kind": "evidence", "spec": spec, "class": cls, "obs": obs, "semiring": semiring,
                     "fold": fold, "optimize": optimize}
             run.case({"spec": spec, "obs": obs}, nontrivial=nontrivial, sample=scen if i < 1 else None,
